@@ -26,8 +26,9 @@ LEVEL_TEXT = ("Exploration: every interleaving of the four handshake replies (th
               "generated histories are executed against the real Connection/OpenFlowNexus code on fake sockets and judged "
               "after every step against a reference lifecycle model written from the property statement. Histories are "
               "unbounded in principle, so this is bounded exhaustive search plus sampling, not a proof.")
-LEVEL_NOTE = ("the accept/read/close loop of OpenFlow_01_Task is emulated by the harness (read() False or raising -> close(), "
-              "socket dropped); TCP segmentation is C02's subject and only whole messages (optionally several per recv) are fed")
+LEVEL_NOTE = ("most drivers emulate the accept/read/close loop of OpenFlow_01_Task (read() False or raising -> close(), "
+              "socket dropped); the real-task-loop drivers run OpenFlow_01_Task.run() itself as a generator and choose what each "
+              "select round reports (readable / exceptional / both / neither per connection); TCP segmentation is C02's subject and only whole messages (optionally several per recv) are fed")
 RULE = ("a case is a history of ops (open / message / loss / disconnect / sendToDPID / DownEvent) over <= 3 connections and 2 "
         "datapath ids; non-trivial when at least one asynchronous message arrived on a connection before it was announced, or "
         "two connections with the same datapath id had overlapping lifetimes; distinct by SHA-1 of the canonical JSON of the ops")
@@ -39,17 +40,30 @@ ASSUMPTIONS = [
   "after a fatal send error connection-down may be raised at once or when the socket is closed; after EOF/recv error/disconnect()/DownEvent it is due within the same step",
   "after a registry discrepancy for a datapath id has been recorded, that id is not judged again until registry and model agree (so a known finding does not mask the rest of the history)",
   "when the newest connection of a datapath goes away while an older announced connection of the same datapath is still open, the statement can be read both ways (the survivor is its 'stale connection' or its 'most recent live connection'): the registry may hold the survivor or nothing, sendToDPID must agree with the registry",
+  "the scripted switch may answer every message the controller sent during the handshake (features request, stats request, set_config, flow_mod, barrier request) with an error echoing that message's xid and carrying a copy of it; only BAD_REQUEST/BAD_TYPE in answer to the barrier request itself (identified by type and position in the controller's output) finishes the handshake",
+  "core DownEvent: every connection that is registered (the most recent live announced one per datapath) must get ConnectionDown exactly once within that step and leave the registry; a superseded, unregistered older connection of the same datapath is not judged",
+  "real task loop: a connection is only reported readable when its fake socket has data, EOF or an error pending (as select would); it may be reported exceptional at any time, which counts as a loss: it must be closed and get its ConnectionDown; messages queued but unread at that moment count as never received; at the end every switch goes away and every connection must have been closed by the loop",
   "a switch answers the handshake barrier once (the quantifier's multiset); histories with a second barrier reply can be replayed but are not generated",
 ]
 EXHAUSTIVE_SCOPE = {
   "quick": ("one connection: all 24 orders of {hello, features, desc-stats, barrier outcome} x 3 barrier outcomes x every "
-            "insertion of <= 2 of 6 asynchronous messages (port-status, echo request, packet-in, error with data, error without data, flow-stats reply), each followed by port-status/sendToDPID/EOF; two connections: "
+            "insertion of <= 2 of 5 asynchronous messages (port-status, echo request, packet-in, unrelated error with data, flow-stats reply), each followed by port-status/sendToDPID/EOF; two connections: "
             "all 70 merges of [open, features, barrier, lose] x same/different dpid x 4x4 loss kinds; three connections: all 90 "
             "merges of [handshake, lose] x 4 dpid assignments x 2 loss kinds; EOF / reset at 7 byte offsets inside each of the 6 "
-            "messages of a handshake while an announced connection of the same dpid is live"),
+            "messages of a handshake while an announced connection of the same dpid is live; an error of 3 type/code pairs answering each "
+            "of the controller's 5 handshake messages (and all 25 pairs of BAD_REQUEST/BAD_TYPE errors) at every position x 4 barrier outcomes; "
+            "core DownEvent after every announced/half/none mix of 1..3 connections over 8 dpid assignments and all orders, and at every point "
+            "of all 70 merges of two lifecycles on different dpids; real task loop: one select round reporting each of two connections "
+            "not at all / readable / exceptional / both, with and without data pending, at each of 5 handshake stages"),
   "thorough": ("as quick with <= 3 asynchronous messages, three connections with [open, handshake, lose] stages (1680 merges x 4 "
                "dpid assignments), and EOF / reset after every byte prefix of the handshake with a second live connection on the same dpid"),
 }
+
+_HANDSHAKE_REQUESTS = (sb.OFPT_FEATURES_REQUEST, sb.OFPT_STATS_REQUEST, sb.OFPT_SET_CONFIG, sb.OFPT_FLOW_MOD, sb.OFPT_BARRIER_REQUEST)
+_REQ_NAMES = {sb.OFPT_FEATURES_REQUEST: "features_request", sb.OFPT_STATS_REQUEST: "stats_request", sb.OFPT_SET_CONFIG: "set_config",
+              sb.OFPT_FLOW_MOD: "flow_mod", sb.OFPT_BARRIER_REQUEST: "barrier_request"}
+_RERR_CODES = [(sb.OFPET_BAD_REQUEST, sb.OFPBRC_BAD_TYPE), (sb.OFPET_BAD_REQUEST, sb.OFPBRC_BAD_LEN), (sb.OFPET_FLOW_MOD_FAILED, 0),
+               (sb.OFPET_BAD_REQUEST, sb.OFPBRC_BAD_STAT), (sb.OFPET_BAD_ACTION, 1)]
 
 DPIDS = [0x0000000000000001, 0x00a1b2c3d4e5f607]
 MAX_CONNS = 3
@@ -68,7 +82,7 @@ def setup():
 # --------------------------------------------------------------------------- harness
 
 class _C(object):
-  __slots__ = ("idx", "con", "sock", "closed", "pending", "joined", "parsed", "m", "armed", "acts")
+  __slots__ = ("idx", "con", "sock", "closed", "pending", "joined", "parsed", "m", "armed", "acts", "requests", "barrier_answered")
 
 
 class _H(object):
@@ -117,16 +131,21 @@ class _H(object):
     c = _C()
     c.idx = len(self.cs)
     c.sock = _W.FakeSock()
-    c.con = self.of_01.Connection(c.sock)
+    c.con = self.make_connection(c.sock)
     c.closed = c.pending = c.joined = c.armed = False
     c.parsed = 0
     c.acts = []
+    c.barrier_answered = False
+    c.requests = []          # (type, xid, bytes) of what the controller sent during the handshake, in order
     c.m = self.model.open(DPIDS[d])
     self.cs.append(c)
     self.by_id[id(c.con)] = c
     for n in ("ConnectionUp", "ConnectionDown", "PortStatus"):
       c.con.addListenerByName(n, self._rec("con", n))
     return c
+
+  def make_connection(self, sock):
+    return self.of_01.Connection(sock)
 
   def get(self, i):
     if i >= len(self.cs):
@@ -202,7 +221,10 @@ class _H(object):
       data = bytes(c.sock.sent[c.parsed:])
       msgs, rest = sb.split(data)
       for v, t, x, b in msgs:
+        if t in _HANDSHAKE_REQUESTS:
+          c.requests.append((t, x, b))
         if t == sb.OFPT_BARRIER_REQUEST:
+          # the barrier is identified by its type and position in the controller's output
           self.model.barrier_request_seen(c.m, x)
       c.parsed += len(data) - len(rest)
 
@@ -228,11 +250,38 @@ class _H(object):
         xid = bx
       else:
         xid = (bx + 1 + (msg[2] if len(msg) > 2 else 0)) & 0xffffffff
+      if bx is not None:
+        c.barrier_answered = True
       return sb.barrier_reply(xid), lambda: m.barrier_reply(c.m, xid)
     if t == "berr":
       xid = bx if bx is not None else 0x7777
+      if bx is not None:
+        c.barrier_answered = True
       return (sb.error(xid, sb.OFPET_BAD_REQUEST, sb.OFPBRC_BAD_TYPE, sb.barrier_request(xid)),
-              lambda: m.error(c.m, xid, sb.OFPET_BAD_REQUEST, sb.OFPBRC_BAD_TYPE))
+              lambda: m.error(c.m, bx is not None, sb.OFPET_BAD_REQUEST, sb.OFPBRC_BAD_TYPE))
+    if t == "rerr":
+      # an error answering the k-th message the controller has sent during the handshake so far, echoing
+      # THAT message's xid and carrying a copy of it, with one of several type/code pairs
+      et, code = _RERR_CODES[msg[2] % len(_RERR_CODES)]
+      if not c.requests:
+        xid = self.xid_seq | 0x40000000
+        def act0():
+          m.other(c.m)
+          return m.error(c.m, False, et, code)
+        return sb.error(xid, et, code, b""), act0
+      rt, rx, rb = c.requests[msg[1] % len(c.requests)]
+      if rt == sb.OFPT_BARRIER_REQUEST and c.barrier_answered:
+        # the switch answers the barrier once (the quantifier's multiset): answer another request instead
+        rt, rx, rb = c.requests[msg[1] % (len(c.requests) - 1)]
+      is_barrier = rt == sb.OFPT_BARRIER_REQUEST
+      if is_barrier:
+        c.barrier_answered = True
+      self.out.label("error-answering:%s/%s" % (_REQ_NAMES[rt], "BAD_REQUEST-BAD_TYPE" if (et, code) == _RERR_CODES[0] else "other-code"))
+      def act1():
+        if not is_barrier:
+          m.other(c.m)
+        return m.error(c.m, is_barrier, et, code)
+      return sb.error(rx, et, code, rb[:64]), act1
     if t == "ps":
       self.ps_seq += 1
       tag = self.ps_seq
@@ -255,9 +304,10 @@ class _H(object):
         xid, et, code = (bx if bx is not None else other), sb.OFPET_FLOW_MOD_FAILED, 1
       else:
         xid, et, code = other, sb.OFPET_HELLO_FAILED, 0
+      answers_barrier = v in (1, 2) and bx is not None
       def act():
         m.other(c.m)
-        return m.error(c.m, xid, et, code)
+        return m.error(c.m, answers_barrier, et, code)
       return sb.error(xid, et, code, data), act
     if t == "stats":
       k = msg[1] % 3
@@ -485,12 +535,180 @@ def _send_to(h, d, op):
 
 def run_case(case):
   out = Outcome()
+  if case["k"] == "loop":
+    out.label("driver:real-OpenFlow_01_Task-loop")
+    h = _HL(out)
+    try:
+      _run_loop(h, case["ops"])
+    finally:
+      h.close()
+    return out
   h = _H(out)
   try:
     _run(h, case["ops"])
   finally:
     h.close()
   return out
+
+
+# --------------------------------------------------------------------------- the same, through the real task loop
+
+class _HL(_H):
+  """Connections are accepted, read and closed by the real OpenFlow_01_Task.run() (driven as a generator by
+  pvf.sim.loops.ControllerLoop); the harness only chooses what each select() round reports."""
+
+  def __init__(self, out):
+    _H.__init__(self, out)
+    from ..sim import loops
+    self.loop = loops.ControllerLoop(self.w)
+
+  def close(self):
+    try:
+      self.loop.close()
+    finally:
+      _H.close(self)
+
+  def make_connection(self, sock):
+    # one select round that reports only the listener (ControllerLoop.connect would also read every
+    # connection that has data queued, behind the model's back)
+    loop = self.loop
+    loop.listener.pending.append(sock)
+    loop.select = loop._advance(([loop.listener], [], []))
+    for con in loop.connections():
+      if getattr(con, "sock", None) is sock:
+        return con
+    raise HarnessError("the task loop did not accept the connection")
+
+  def round(self, spec, op):
+    """one wake-up of the task.  spec[i] for connection i: bit 0 = report it readable (only honoured when its
+    socket really has data / EOF / an error pending, as select would), bit 1 = report it exceptional."""
+    if not self.loop.alive:
+      raise HarnessError("the task loop has ended: %r" % (self.loop.ended,))
+    selected = set(id(x) for x in self.loop.selected)
+    rl, el = [], []
+    for c in self.cs:
+      sp = spec[c.idx] if c.idx < len(spec) else 0
+      if c.closed or id(c.con) not in selected:
+        continue
+      if sp & 1 and c.sock.v_readable():
+        rl.append(c)
+      if sp & 2:
+        el.append(c)
+    if not rl and not el:
+      return
+    for c in el:
+      self.out.label("loop:reported-exceptional" + ("+readable" if c in rl else "") + ("/data-pending" if c.sock.inbox else "") + _stage(c))
+    self.loop.select = self.loop._advance(([c.con for c in rl], [], [c.con for c in el]))
+    # whatever is still queued on a connection that was read and survived is read in further rounds
+    n = 0
+    while self.loop.alive:
+      more = [c for c in rl if c not in el and not c.sock.closed and c.sock.inbox and id(c.con) in set(id(x) for x in self.loop.selected)]
+      if not more:
+        break
+      self.loop.select = self.loop._advance(([c.con for c in more], [], []))
+      n += 1
+      if n > 1000:
+        raise HarnessError("task loop does not drain")
+    # ---- tell the model
+    for c in self.cs:
+      if c in el:
+        # reported exceptional: the loop tears it down without reading; queued messages were never received
+        c.acts = []
+        c.joined = False
+        c.closed = True
+        c.pending = False
+        self.model.closed(c.m)
+      elif c in rl:
+        acts, c.acts = c.acts, []
+        c.joined = False
+        for a in acts:
+          if a is not None:
+            a()
+          self._follow(c)
+        self._note_loss(c)
+        if c.sock.closed:
+          c.closed = True
+          c.pending = False
+          self.model.closed(c.m)
+    _settle(self, op)
+    for c in el:
+      if not c.sock.closed:
+        self.once.fail("exceptional-connection-left-open", "connection %d was reported exceptional by select but the task loop did not close it (op %r)" % (c.idx, op))
+
+
+def _run_loop(h, ops):
+  out = h.out
+  h.prev_real = {}
+  h.opened_at, h.closed_at = {}, {}
+  for step, op in enumerate(ops):
+    h.step = step
+    o = op[0]
+    if o == "open":
+      c = h.open(op[1] % 2)
+      if c is not None:
+        h.opened_at[c.idx] = step
+    elif o == "m":
+      c = h.get(op[1])
+      if c is None or c.pending:
+        continue
+      out.label("msg:" + op[2][0] + ("/pre-up" if not c.m.up else "/post-up"))
+      data, act = h.build(c, op[2])
+      c.sock.feed(data)
+      c.acts.append(act)
+      c.joined = True
+    elif o == "lose":
+      c = h.get(op[1])
+      if c is None:
+        continue
+      if op[2] == "rst":
+        c.sock.recv_error = errno.ECONNRESET
+      else:
+        c.sock.eof = True
+      out.label("loss:" + op[2] + _stage(c))
+    elif o == "disc":
+      c = h.get(op[1])
+      if c is None or c.joined:
+        continue
+      out.label("loss:disconnect()" + _stage(c))
+      c.con.disconnect()
+      h.model.lost(c.m, down_now=True)
+    elif o == "send":
+      _send_to(h, op[1] % 2, op)
+    elif o == "round":
+      h.round(op[1], op)
+      continue
+    else:
+      raise HarnessError("unknown op %r" % (op,))
+    _settle(h, op)
+  # ---- the switches go away; the loop must notice every one of them
+  h.step = len(ops)
+  for c in h.cs:
+    if not c.closed:
+      c.sock.eof = True
+  for _ in range(4):
+    h.round([1] * len(h.cs), ["end-round"])
+  for c in h.cs:
+    if not c.sock.closed:
+      # the loop no longer selects on it (or never closed it): for the controller this connection is lost for good
+      h.model.closed(c.m)
+      c.closed = True
+      h.once.fail("lost-connection-never-closed", "connection %d: its switch went away but the task loop never closed it (no longer selected on: %s)" % (
+          c.idx, id(c.con) not in set(id(x) for x in h.loop.selected)))
+  _settle(h, ["end"])
+  nt = False
+  for c in h.cs:
+    if c.m.async_before_up:
+      nt = True
+  n = len(h.cs)
+  for i in range(n):
+    for j in range(i + 1, n):
+      a, b = h.cs[i], h.cs[j]
+      if a.m.peer_dpid == b.m.peer_dpid and a.m.got_features and b.m.got_features and h.opened_at[j] < h.closed_at.get(i, 10 ** 9):
+        nt = True
+  out.nontrivial = nt
+  out.label("announced:%d" % sum(1 for c in h.cs if c.m.up))
+  if h.loop.log.exceptions:
+    out.label("loop:exception-logged-by-the-task")
 
 
 def _stage(c):
@@ -672,7 +890,7 @@ def _run(h, ops):
 
 # --------------------------------------------------------------------------- enumerations
 
-_ASYNC = [["ps", 2, 0], ["echo"], ["pin"], ["err", 1, 1], ["err", 2, 0], ["stats", 0]]
+_ASYNC = [["ps", 2, 0], ["echo"], ["pin"], ["err", 1, 1], ["stats", 0]]
 _BARRIER = [["bar", "right"], ["berr"], ["bar", "wrong"]]
 
 
@@ -703,6 +921,87 @@ def enum_handshake(max_async):
           for seq in _insertions(list(perm), list(extra)):
             ops = [["open", 0]] + [["m", 0, m] for m in seq] + tail
             yield {"k": "hist", "ops": ops}
+
+
+def enum_request_errors(tier):
+  """the switch answers each message the controller sends during the handshake (features request, stats
+  request, set_config, flow_mod, barrier request) with an error echoing that message's xid, at every point
+  after it was sent; only BAD_REQUEST/BAD_TYPE answering the barrier may finish the handshake"""
+  tail = [["m", 0, ["ps", 0, 1]], ["send", 0], ["lose", 0, "eof"], ["send", 0]]
+  singles = [["rerr", k, v] for k in range(5) for v in range(3)]
+  pairs = [[["rerr", k, 0], ["rerr", k2, 0]] for k in range(5) for k2 in range(5)]
+  for bar in _BARRIER + [None]:
+    base = [["hello"], ["feat"], ["desc"]] + ([bar] if bar is not None else [])
+    for extra in [[x] for x in singles] + pairs:
+      for seq in _insertions(base, extra):
+        # (an error can only answer what has been sent: index k is taken modulo the requests seen so far)
+        ops = [["open", 0]] + [["m", 0, m] for m in seq] + tail
+        yield {"k": "hist", "ops": ops}
+
+
+def enum_down(tier):
+  """core DownEvent with 1..3 announced connections over the two datapath ids, at every point of the
+  lifecycles of two connections, and with announced / half-handshaken mixes of three"""
+  up = lambda i: [["m", i, ["hello"]], ["m", i, ["feat"]], ["m", i, ["bar", "right"]]]
+  half = lambda i: [["m", i, ["hello"]], ["m", i, ["feat"]]]
+  after = [["send", 0], ["send", 1], ["poll"], ["send", 0], ["send", 1]]
+  for dpids in ([0], [0, 1], [1, 0], [0, 0], [0, 1, 0], [0, 1, 1], [0, 0, 1], [1, 0, 1]):
+    n = len(dpids)
+    for stages in itertools.product(("up", "half", "none"), repeat=n):
+      for order in itertools.permutations(range(n)):
+        if list(order) != sorted(order) and n < 3:
+          pass
+        ops = [["open", d] for d in dpids]
+        for i in order:
+          if stages[i] == "up":
+            ops += up(i)
+          elif stages[i] == "half":
+            ops += half(i)
+        ops += [["send", 0], ["send", 1], ["down"]] + after
+        for i in range(n):
+          ops += [["lose", i, "eof"]]
+        yield {"k": "hist", "ops": ops}
+  # DownEvent at every point of two interleaved lifecycles on different datapaths
+  la = [[["open", 0]], up(0), [["m", 0, ["ps", 2, 0]]], [["lose", 0, "eof"]]]
+  lb = [[["open", 1]], up(1), [["m", 1, ["ps", 0, 1]]], [["lose", 1, "rst"]]]
+  for merge in _merges([["a0", "a1", "a2", "a3"], ["b0", "b1", "b2", "b3"]]):
+    stagesl = [(la if t[0] == "a" else lb)[int(t[1])] for t in merge]
+    for pos in range(1, len(stagesl) + 1):
+      ops = []
+      for j, st_ in enumerate(stagesl):
+        ops.extend(st_)
+        if j + 1 == pos:
+          ops += [["down"], ["send", 0], ["send", 1]]
+      ops += [["poll"], ["send", 0], ["send", 1]]
+      if merge.index("b0") < merge.index("a0"):
+        ops = _swap01(ops)
+      yield {"k": "hist", "ops": ops}
+
+
+def enum_loop(tier):
+  """histories through the real task loop: every combination of {not reported, readable, exceptional, both} for
+  two connections in one select round, with and without data pending, at every stage of the handshake"""
+  R = ["round", [1, 1, 1]]
+  steps = [["hello"], ["feat"], ["ps", 2, 0], ["bar", "right"]]
+  for same in (0, 1):
+    for stage0 in range(len(steps) + 1):           # how far connection 0 has got
+      for pend in (0, 1):
+        for s0 in range(4):
+          for s1 in range(4):
+            if tier == "quick" and stage0 < len(steps) and s1 not in (0, 2):
+              continue
+            ops = [["open", 0], ["open", 0 if same else 1]]
+            for m in steps:
+              ops += [["m", 1, m], R]
+            for m in steps[:stage0]:
+              ops += [["m", 0, m], R]
+            if pend:
+              ops += [["m", 0, ["ps", 0, 1]], ["m", 1, ["ps", 0, 2]]]
+            ops += [["round", [s0, s1]], ["send", 0], ["send", 1]]
+            for m in steps[stage0:]:
+              ops += [["m", 0, m], R]
+            ops += [["m", 0, ["ps", 2, 1]], ["m", 1, ["ps", 2, 2]], R, ["send", 0], ["send", 1]]
+            yield {"k": "loop", "ops": ops}
 
 
 def _merges(lists):
@@ -837,6 +1136,8 @@ _msg_async = st.one_of(
   st.just(["echo"]), st.just(["pin"]),
   st.tuples(st.just("err"), st.integers(0, 3), st.integers(0, 1)).map(list),
   st.tuples(st.just("stats"), st.integers(0, 2)).map(list),
+  st.tuples(st.just("rerr"), st.integers(0, 4), st.integers(0, 4)).map(list),
+  st.tuples(st.just("rerr"), st.integers(0, 4), st.just(0)).map(list),
 )
 _msg_barrier = st.one_of(st.just(["bar", "right"]), st.just(["bar", "right"]), st.just(["berr"]),
                          st.tuples(st.just("bar"), st.just("wrong"), st.integers(0, 3)).map(list))
@@ -916,6 +1217,31 @@ def _history(draw, tier):
   return {"k": "hist", "ops": ops}
 
 
+@st.composite
+def _loop_history(draw, tier):
+  """a generated history re-expressed for the real loop: messages are queued, select rounds (drawn) deliver them"""
+  base = draw(_history(tier))["ops"]
+  ops = []
+  spec = lambda: [draw(st.sampled_from([1, 1, 1, 1, 1, 0, 0, 2, 3])) for _ in range(MAX_CONNS)]
+  for op in base:
+    o = op[0]
+    if o == "m":
+      ops.append(["m", op[1], op[2]])
+      if not (len(op) > 3 and op[3]):
+        r = [0] * MAX_CONNS
+        r[op[1]] = 1
+        ops.append(["round", r if draw(st.integers(0, 4)) else spec()])
+    elif o == "lose":
+      ops.append(op)
+      ops.append(["round", [1] * MAX_CONNS if draw(st.integers(0, 2)) else spec()])
+    elif o == "poll":
+      ops.append(["round", spec()])
+    elif o in ("open", "send", "disc"):
+      ops.append(op)
+    # (cut / sendfail / down belong to the emulated-loop driver)
+  return {"k": "loop", "ops": ops}
+
+
 def plan(tier):
   if tier == "quick":
     return [
@@ -923,12 +1249,20 @@ def plan(tier):
       Enum("two-connections", lambda: enum_two(tier), shards=8),
       Enum("three-connections", lambda: enum_three(tier), shards=4),
       Enum("loss-inside-the-handshake", lambda: enum_cut(tier), shards=2),
+      Enum("errors-answering-handshake-requests", lambda: enum_request_errors(tier), shards=4),
+      Enum("core-DownEvent", lambda: enum_down(tier), shards=4),
+      Enum("real-task-loop", lambda: enum_loop(tier), shards=2),
       Hyp("histories", lambda: _history(tier), examples=4000, shards=16),
+      Hyp("real-task-loop-histories", lambda: _loop_history(tier), examples=1000, shards=8),
     ]
   return [
     Enum("handshake-interleavings", lambda: enum_handshake(3), shards=16),
     Enum("two-connections", lambda: enum_two(tier), shards=16),
     Enum("three-connections", lambda: enum_three(tier), shards=16),
     Enum("loss-inside-the-handshake", lambda: enum_cut(tier), shards=16),
+    Enum("errors-answering-handshake-requests", lambda: enum_request_errors(tier), shards=8),
+    Enum("core-DownEvent", lambda: enum_down(tier), shards=8),
+    Enum("real-task-loop", lambda: enum_loop(tier), shards=8),
+    Hyp("real-task-loop-histories", lambda: _loop_history(tier), examples=60000, shards=16),
     Hyp("histories", lambda: _history(tier), examples=300000, shards=16),
   ]
